@@ -279,7 +279,7 @@ def raw_state(v):
 # ------------------------------------------------------------------------------------
 # seeded generators (pure functions of the rng)
 
-ATOMS = ('a', 'b', 'ab', '1')
+ATOMS = ('a', 'b', 'ab', '1', 'x y', '', '[]')
 INTS = (0, 1, None, 2.5)        # Python constants of kind 'i': ints, a float and None (all JSON-native)
 STRS = ('a', '1', 'x y')
 FUNCTORS = ('f', 'g', 'fg')
